@@ -2201,6 +2201,17 @@ def _imp(name, globals=None, locals=None, fromlist=(), level=0):
         return NP
     if name == "numba":
         return NUMBA
+    if name.startswith("numba."):  # from numba.typed import Dict, from numba.core import types ...
+        obj = NUMBA
+        if fromlist:
+            try:
+                for part in name.split(".")[1:]:
+                    obj = getattr(obj, part)
+                return obj
+            except AttributeError:
+                pass
+        else:
+            return NUMBA
     if name == "math":
         return MATH
     if name == "mchap" or name.startswith("mchap."):
